@@ -41,7 +41,7 @@ MANIFEST = dict(
 H = G.HEADERS
 IH = ["type", "sheet_name", "data_sheet", "data_row_id", "new_name", "template_arguments", "operation"]
 FULL = {"catNames": True, "resultName": True}
-ID_POOL = ["r1", "r2", "row 3", "A-B", "x - y", "7", "é1", "Zed", "q.9"]
+ID_POOL = ["r1", "r2", "row 3", "A-B", "x - y", "7", "é1", "Zed", "q.9", "w1;d2", "en|GB", "a\;b", "t;"]   # an ID is an opaque string: separators and escapes of the cell syntax included
 WORDS = ["alpha", "beta", "gamma", "delta"]
 BLANK_ID_WARNING = "For create_flow, if no data_sheet is provided, data_row_id should be blank as well."
 
